@@ -37,7 +37,9 @@ def serial(g):
     o = graph_obs(g)
     return o
 
-def check_case(spec, inst, res):
+def check_case(spec, inst, res, keep=None):
+    """`keep`: a dict that receives what the third column (the GENERATED code) is compared with: the graph of every wrapper
+    call, the attacker that was attached and the graph it was attached to"""
     from maltoolbox.attackgraph import AttackGraph
     from maltoolbox.attackgraph.analyzers.apriori import calculate_viability_and_necessity
     from maltoolbox.wrappers import create_attack_graph
@@ -68,6 +70,11 @@ def check_case(spec, inst, res):
     m.add_attacker(att)
     ga = AttackGraph(lg, m); gb = AttackGraph(lg, m)
     ga.attach_attackers()
+    if keep is not None:
+        keep['att'] = [att.id, att.name, [[int(a.id), list(sts)] for a, sts in att.entry_points]]
+        keep['attached'] = dict(graph_obs(ga), attackers=[{'id': a.id, 'name': a.name, 'entry_points': [n.id for n in a.entry_points],
+                                                           'reached': [n.id for n in a.reached_attack_steps]} for a in ga.attackers],
+                                compromised_by=[[a.id for a in n.compromised_by] for n in ga.nodes])
     own = {id(n) for n in ga.nodes}
     if any(id(n) not in own for a in ga.attackers for n in list(a.reached_attack_steps) + list(a.entry_points)):
         probs.append('attaching attackers to one graph reached nodes of another graph built from the same model')
@@ -89,6 +96,7 @@ def check_case(spec, inst, res):
             except BaseException as e:
                 probs.append(f'create_attack_graph({os.path.basename(lf)}, model.{ext}) raises {type(e).__name__}'); continue
             ow = graph_obs(gw)
+            if keep is not None: keep.setdefault('wrapper', {})[(os.path.basename(lf), 'model.' + ext)] = ow
             # a yml model file lists the assets sorted by id: node ids follow the model order; compare per full name
             key = lambda o: sorted((n['full_name'], n['type'], n['ttc'], n['tags'], n['mitre'], n['defense'], n['exist']) for n in o['nodes'])
             names = lambda o: {n['id']: n['full_name'] for n in o['nodes']}
@@ -98,6 +106,45 @@ def check_case(spec, inst, res):
             elif ext == 'json' and ow != o1:
                 probs.append(f'the wrapper from {os.path.basename(lf)} + model.json gives different node ids / order than the direct API')
     return probs, o1, [[n.is_viable, n.is_necessary] for n in g1.nodes]
+
+def generated_column(res, third):
+    """Third column: the GENERATED code on the inputs of the cases the check found nothing wrong with.  Per case seven runs of the
+    driver op `gen_generate`: (1) language graph + model through the API + `AttackGraph(lang_graph, model)` + analysis against
+    the first real graph and its labels; (1b) three generations in one node store, the third graph (ids restart at 0, the
+    references do not) against the real third graph; (2) the same with the attacker of the check attached (`attach_attackers`) against the
+    real attached graph; (3-6) the generated `create_attack_graph` on (lang.mar | lang.mal) x (model.json | model.yml) against
+    the graph the real wrapper returned for these files (a yml file lists the assets sorted by id).  Everything exact."""
+    from .. import genexec
+    pl, meta = [], []
+    for ci, (spec, inst, o1, labels, keep) in enumerate(third):
+        lp, ip = lang_payload(spec), inst_payload(inst)
+        def add(kind, want, **kw):
+            pl.append(genexec.generate_payload(len(pl), lp, kw.pop('inst', ip), **kw)); meta.append((ci, kind, want))
+        add('AttackGraph + calculate_viability_and_necessity', dict(o1, labels=labels), calc=True)
+        add('AttackGraph x 3 in one process', o1, again=2)
+        if 'attached' in keep:
+            add('AttackGraph + attach_attackers', keep['attached'], attackers=[keep['att']], attach=True)
+        ysorted = dict(ip, assets=sorted(ip['assets'], key=lambda a: a['id']))
+        for (lf, mf), ow in keep.get('wrapper', {}).items():
+            add(f'create_attack_graph({lf}, {mf})', ow, mode='wrapper', lang_file=lf, model_file=mf, inst=ysorted if mf.endswith('yml') else ip)
+    out = run_driver(pl)
+    vs = []
+    for (ci, kind, want), o in zip(meta, out):
+        spec, inst = third[ci][0], third[ci][1]
+        if 'error' in o:
+            vs.append(genexec.driver_error('C16', o['error'], {'spec': spec, 'inst': inst, 'run': kind})); continue
+        g = o['model']
+        prob, _ = genexec.generate_cmp(g, want, edges='exact')
+        res.bump('generated_code_graphs_compared'); res.bump('generated_code_runs:' + kind.split('(')[0])
+        if not prob and 'labels' in want and [[n['viable'], n['necessary']] for n in g['graph']['nodes']] != want['labels']:
+            prob = 'on the viability / necessity labels after the analysis'
+        if not prob and 'attackers' in want:
+            if g['graph']['attackers'] != want['attackers']: prob = f'on the attached attackers: generated {g["graph"]["attackers"]}, implementation {want["attackers"]}'
+            elif [n['compromised_by'] for n in g['graph']['nodes']] != want['compromised_by']: prob = 'on compromised_by after attach_attackers'
+        if prob:
+            vs.append(genexec.divergence('C16', kind.split('(')[0].split(' ')[0], f'{prob} [{kind}]',
+                                         {'spec': spec, 'inst': inst, 'run': kind, 'impl': want, 'generated': g}))
+    return vs
 
 def run(seed, tier, lean) -> Result:
     rnd = random.Random(seed)
@@ -115,12 +162,14 @@ def run(seed, tier, lean) -> Result:
         cases.append((spec, gen_model(r, spec)))
     model = run_driver([{'op': 'gen', 'case': i, 'lang': lang_payload(s), 'inst': inst_payload(m)} for i, (s, m) in enumerate(cases)]) if lean['build_ok'] else None
     firsts = []
+    third = []          # the cases for the third column (the GENERATED code), run after the real code
     for i, (spec, inst) in enumerate(cases):
         res.evaluations += 1
         try:
             from ..common import time_limit
             with time_limit(45):
-                probs, o1, labels = check_case(spec, inst, res)
+                keep = {}
+                probs, o1, labels = check_case(spec, inst, res, keep=keep)
         except Exception as e:
             res.notes.append(f'case skipped: {type(e).__name__}: {str(e)[:60]}'); firsts.append(None); continue
         firsts.append((o1, labels))
@@ -133,6 +182,8 @@ def run(seed, tier, lean) -> Result:
                 res.violations.append(Violation(what='the serialized graph differs from the single answer of the Lean model', fingerprint='C16:model-divergence',
                                                 replay={'spec': spec, 'inst': inst}, no_failing_input=True))
             elif mo['edges'] != o1['edges']: res.drift += 1       # order / multiplicity of edges: not constrained by the property
+            third.append((spec, inst, o1, labels, keep))
+    res.violations.extend(generated_column(res, third))
     # fresh interpreters, different hash seeds
     d = os.path.join(scratch(), 'c16p'); os.makedirs(d, exist_ok=True)
     good = [(c, f) for c, f in zip(cases, firsts) if f]
@@ -156,6 +207,36 @@ def run(seed, tier, lean) -> Result:
     if good: res.samples.append({'nodes': good[0][1][0]['nodes'][:3], 'edges': good[0][1][0]['edges'][:5]})
     else: res.samples.append({'note': 'no case generated'})
     return res
+
+def genexec_measure(seed: int, n: int) -> dict:
+    """tools/genexec_seeded.py: the cases of the quick check (`n` // 8 of them: every case is six runs of the generated code and
+    a dozen of the real one) on (mutated) implementation / hand model / regenerated code.  impl != hand: the check reports a
+    problem or the graph differs from the hand model's; gen != impl: one of the six generated runs differs from its real twin."""
+    rnd = random.Random(seed); cases = []
+    for i in range(max(n // 8, 10)):
+        r = random.Random(rnd.getrandbits(48))
+        spec = chain_language(r) if i % 3 == 2 else LangGen(r).gen()
+        spec['categories'] = [{'name': 'Cat', 'meta': {}}]
+        for a in spec['assets']: a['category'] = 'Cat'
+        cases.append((spec, gen_model(r, spec)))
+    st = {'cases': 0, 'impl_ne_hand': 0, 'gen_follows_impl': 0, 'gen_ne_impl': 0, 'impl_crash': 0, 'examples': []}
+    hand = run_driver([{'op': 'gen', 'case': i, 'lang': lang_payload(s), 'inst': inst_payload(m)} for i, (s, m) in enumerate(cases)])
+    for i, (spec, inst) in enumerate(cases):
+        st['cases'] += 1
+        keep = {}
+        try:
+            probs, o1, labels = check_case(spec, inst, Result(), keep=keep)
+        except BaseException as e:
+            st['impl_crash'] += 1; st['examples'].append(['impl-crash', type(e).__name__ + ': ' + str(e)[:80]]); continue
+        mo = hand[i].get('model', {})
+        hsame = not probs and 'error' not in mo and model_nodes_canon(mo['nodes']) == o1['nodes'] and set(map(tuple, mo['edges'])) == set(map(tuple, o1['edges']))
+        r2 = Result()
+        vs = generated_column(r2, [(spec, inst, o1, labels, keep)])
+        if vs: st['gen_ne_impl'] += 1; st['examples'].append(['gen!=impl', {'spec': spec, 'inst': inst, 'what': vs[0].what[:300]}])
+        if not hsame:
+            st['impl_ne_hand'] += 1
+            if not vs: st['gen_follows_impl'] += 1; st['examples'].append(['gen=impl!=hand', {'problems': probs[:2]}])
+    return st
 
 def replay(path):
     r = json.load(open(path))
